@@ -153,6 +153,14 @@ qb_loop_run(struct qb_loop *lp)
 	}
 	l->stop_requested = QB_FALSE;
 
+	/*
+	 * Work that was queued for dispatch when a previous run was stopped
+	 * is still there: do not go to sleep on it.
+	 */
+	for (p = QB_LOOP_HIGH; p >= QB_LOOP_LOW; p--) {
+		remaining_todo += l->level[p].todo;
+	}
+
 	do {
 		if (p_stop == QB_LOOP_LOW) {
 			p_stop = QB_LOOP_HIGH;
